@@ -2,11 +2,11 @@
 package c12
 
 import (
-	"strings"
 	"bytes"
 	"encoding/binary"
 	"fmt"
 	"os"
+	"strings"
 	"time"
 
 	"github.com/tonkeeper/tongo/liteclient"
@@ -121,10 +121,12 @@ func (w *world) serve(host string, conn *vnet.VConn) {
 	answer := func(p pending) {
 		out := append(rtl.U32(magicAnswer), p.id...)
 		out = append(out, rtl.Bytes(answerFor(p.q))...)
-		if send(out) {
-			if _, ok := w.answered[string(p.q)]; !ok {
-				w.answered[string(p.q)] = w.s.Now()
-			}
+		// The answer counts as produced even when the write fails: unless the environment dropped the connection
+		// (w.closes > 0, judged separately) only the client itself can have closed a connection on which the
+		// server answers every ping at once, and the call must still get its answer.
+		send(out)
+		if _, ok := w.answered[string(p.q)]; !ok {
+			w.answered[string(p.q)] = w.s.Now()
 		}
 	}
 	if w.sc.idleDrop && w.closes == 0 && w.c.Choose(2) == 1 {
@@ -332,7 +334,7 @@ func runScenario(c *enum.Ctx, sc scenario) {
 		if sc.idle > 0 {
 			vtimes.Sleep(sc.idle)
 		}
-		liveBefore = s.Live()
+		liveBefore = s.LiveExcept("server")
 		done := 0
 		for i := 0; i < sc.callers; i++ {
 			i := i
@@ -352,7 +354,7 @@ func runScenario(c *enum.Ctx, sc scenario) {
 		}
 		// the main thread waits for the callers (it is a client thread itself)
 		s.Yield("join callers", func() bool { return done == sc.callers })
-		liveAfter = s.Live()
+		liveAfter = s.LiveExcept("server")
 		if sc.fresh {
 			// after a drop the client must reconnect by itself within a bounded time and serve a fresh request
 			deadline := s.Now().Add(15 * time.Second)
